@@ -346,3 +346,48 @@ uint64_t q120_concurrent_kernel_check(int T, rng_t* r, int iters, uint64_t* call
   q120_delete_vec_mat1col_product_bbc_precomp(bbc);
   return wrong;
 }
+
+// every length ell0..ell1 of kernel k: the reference and the AVX2 flavour (for the two historical kernels: the kernel and
+// its successor) on the same operands (prefixes of one generated vector) must be congruent modulo each prime. Cheap (no
+// per-term oracle), so the quick tier can afford every length; the exact oracle covers every length in the thorough tier.
+uint64_t q120_pairwise_ell_check(q120_kernel_t k0, uint64_t ell0, uint64_t ell1, int famx, int famy, rng_t* r) {
+  const q120_kernel_t k = k0 == K_BBC_OLD ? K_BBC : (k0 == K_X2_2COLS_OLD ? K_X2_2COLS : k0);
+  const size_t xper = (k == K_X2_1COL || k == K_X2_2COLS) ? 2 : 1;
+  const size_t yper = (k == K_X2_1COL) ? 2 : (k == K_X2_2COLS ? 4 : 1);
+  const size_t nres = (k == K_X2_1COL) ? 2 : (k == K_X2_2COLS ? 4 : 1);
+  gbuf_t gx, gy;
+  uint64_t* x = gb_alloc(&gx, ell1 * xper * 32, 8, 8, 4096);
+  uint64_t* y = gb_alloc(&gy, ell1 * yper * 32, 8, 16, 4096);
+  if (k == K_BAA) { q120_gen_a(r, famx, ell1 * xper, x); q120_gen_a(r, famy, ell1 * yper, y); }
+  else if (k == K_BBB) { q120_gen_b(r, famx, ell1 * xper, x); q120_gen_b(r, famy, ell1 * yper, y); }
+  else { q120_gen_b(r, famx, ell1 * xper, x); q120_gen_c(r, famy, ell1 * yper, (uint32_t*)y); }
+  q120_mat1col_product_baa_precomp* baa = q120_new_vec_mat1col_product_baa_precomp();
+  q120_mat1col_product_bbb_precomp* bbb = q120_new_vec_mat1col_product_bbb_precomp();
+  q120_mat1col_product_bbc_precomp* bbc = q120_new_vec_mat1col_product_bbc_precomp();
+  uint64_t n = 0, bad = 0;
+  for (uint64_t ell = ell0; ell <= ell1; ell++, n++) {
+    uint64_t ra[16], rb[16];
+    memset(ra, 0x11, sizeof ra);
+    memset(rb, 0x22, sizeof rb);
+    switch (k0) {
+      case K_BAA: q120_vec_mat1col_product_baa_ref(baa, ell, (q120b*)ra, (q120a*)x, (q120a*)y); q120_vec_mat1col_product_baa_avx2(baa, ell, (q120b*)rb, (q120a*)x, (q120a*)y); break;
+      case K_BBB: q120_vec_mat1col_product_bbb_ref(bbb, ell, (q120b*)ra, (q120b*)x, (q120b*)y); q120_vec_mat1col_product_bbb_avx2(bbb, ell, (q120b*)rb, (q120b*)x, (q120b*)y); break;
+      case K_BBC: q120_vec_mat1col_product_bbc_ref(bbc, ell, (q120b*)ra, (q120b*)x, (q120c*)y); q120_vec_mat1col_product_bbc_avx2(bbc, ell, (q120b*)rb, (q120b*)x, (q120c*)y); break;
+      case K_X2_1COL: q120x2_vec_mat1col_product_bbc_ref(bbc, ell, (q120b*)ra, (q120b*)x, (q120c*)y); q120x2_vec_mat1col_product_bbc_avx2(bbc, ell, (q120b*)rb, (q120b*)x, (q120c*)y); break;
+      case K_X2_2COLS: q120x2_vec_mat2cols_product_bbc_ref(bbc, ell, (q120b*)ra, (q120b*)x, (q120c*)y); q120x2_vec_mat2cols_product_bbc_avx2(bbc, ell, (q120b*)rb, (q120b*)x, (q120c*)y); break;
+      case K_BBC_OLD: q120_vec_mat1col_product_bbc_ref_old(bbc, ell, (q120b*)ra, (q120b*)x, (q120c*)y); q120_vec_mat1col_product_bbc_ref(bbc, ell, (q120b*)rb, (q120b*)x, (q120c*)y); break;
+      default: q120x2_vec_mat2cols_product_bbc_avx2_old(bbc, ell, (q120b*)ra, (q120b*)x, (q120c*)y); q120x2_vec_mat2cols_product_bbc_avx2(bbc, ell, (q120b*)rb, (q120b*)x, (q120c*)y); break;
+    }
+    for (size_t i = 0; i < 4 * nres; i++)
+      if (ra[i] % Q120[i & 3] != rb[i] % Q120[i & 3] && bad++ < 2)
+        viol("pair", "%s at ell=%" PRIu64 ": the two implementations are not congruent (output %zu, prime %zu: %" PRIu64 " vs %" PRIu64 "; x=%s y=%s)", q120_kernel_name[k0], ell, i / 4, i & 3, ra[i], rb[i], q120_fam_name[famx], q120_fam_name[famy]);
+  }
+  q120_delete_vec_mat1col_product_baa_precomp(baa);
+  q120_delete_vec_mat1col_product_bbb_precomp(bbb);
+  q120_delete_vec_mat1col_product_bbc_precomp(bbc);
+  long wh;
+  if (gb_check(&gx, &wh) || gb_check(&gy, &wh)) viol("canary", "%s wrote outside an operand (%ld)", q120_kernel_name[k0], wh);
+  gb_free(&gx);
+  gb_free(&gy);
+  return n;
+}
